@@ -662,6 +662,7 @@ async fn send_one(addr: std::net::SocketAddr, n: String, case: Value, valid: boo
     } else {
         emit("client_noresp", json!({"n": n, "problem": resp.problem}));
     }
+    httpc::note_answered(resp.wellformed);
 }
 
 type Job = (String, Value, bool, Built, Vec<u8>);
@@ -694,6 +695,7 @@ async fn send_one_tls(addr: std::net::SocketAddr, connector: tokio_rustls::TlsCo
     } else {
         emit("client_noresp", json!({"n": n, "problem": resp.problem, "tls": true}));
     }
+    httpc::note_answered(resp.wellformed);
 }
 
 fn emit_send(n: &str, case: &Value, valid: bool, port: u16, built: &Built, target: &str) {
@@ -823,6 +825,7 @@ fn main() {
     let out = args[3].clone();
     quiet_panics();
     dropshot::verif::install_memory_sink();
+    httpc::stop_early_into(&out);
     let seed = seed_from_env();
     let rt = tokio::runtime::Builder::new_multi_thread().worker_threads(6).enable_all().build().unwrap();
     rt.block_on(async {
